@@ -253,6 +253,10 @@ def precedence_evaluated(ctx, det, binary) -> bool:
     for lab in ("utf-16le", "utf-16be", "utf-16", "unicode", "ucs-2", "csunicode", "iso-10646-ucs-2", "unicodefeff", "unicodefffe", " UTF-16 ", b"utf-16"):
         cases.append(("parent %r" % (lab,), {"same_origin_parent_encoding": lab, "likely_encoding": "koi8-r"}, ("koi8-r", "tentative")))
     cases.append(("parent b'koi8-r'", {"same_origin_parent_encoding": b"koi8-r", "likely_encoding": "big5"}, ("koi8-r", "tentative")))
+    # the UTF-16 exception is the parent's alone: a likely / default / transport / override encoding in the UTF-16 family is used
+    for src in ("likely_encoding", "default_encoding", "transport_encoding", "override_encoding"):
+        for lab, name in (("utf-16le", "utf-16le"), ("utf-16", "utf-16le"), ("utf-16be", "utf-16be")):
+            cases.append(("%s %s" % (src, lab), {src: lab}, (name, conf.get(src, "tentative"))))
     n = 0
     try:
         for label, sc, want in cases:
